@@ -11,6 +11,7 @@ import (
 	"math/rand"
 	"runtime"
 	"sync"
+	"sync/atomic"
 	"time"
 
 	"verifharness/conc"
@@ -127,13 +128,29 @@ func runRegistry(out string, scenarios int) {
 				per = 2 // <= 6 calls per window
 			}
 			plan := make([][]regOp, G)
-			for g := 0; g < G; g++ {
-				for k := 0; k < per; k++ {
-					plan[g] = append(plan[g], randomRegOp(rg, urls, prefixes, sc, g, &nclient))
+			storm := rg.Intn(3) == 0
+			if storm {
+				// all goroutines register (or look up) ONE fresh type URL at the same instant: the load-or-store race
+				G = 3 + rg.Intn(2)
+				plan = make([][]regOp, G)
+				u := fmt.Sprintf("type.googleapis.com/verif.c18.s%d.s%d.storm%d", vt.Seed(), sc, wi)
+				for g := 0; g < G; g++ {
+					if g == G-1 && rg.Intn(2) == 0 {
+						plan[g] = []regOp{{kind: "Get", url: u}}
+					} else {
+						plan[g] = []regOp{{kind: "Register", url: u, mgr: &stubKM{id: fmt.Sprintf("m%d.%d.%d", sc, g, wi), url: u}}}
+					}
 					nOps++
 				}
+			} else {
+				for g := 0; g < G; g++ {
+					for k := 0; k < per; k++ {
+						plan[g] = append(plan[g], randomRegOp(rg, urls, prefixes, sc, g, &nclient))
+						nOps++
+					}
+				}
 			}
-			runWindow(w, plan, rg)
+			runWindow(w, plan, rg, storm)
 			w.Emit(vt.Ev{"ev": "barrier"})
 		}
 	}
@@ -169,7 +186,8 @@ func spin(n int) int {
 	return x
 }
 
-func runWindow(w *vt.Writer, plan [][]regOp, rg *rand.Rand) {
+func runWindow(w *vt.Writer, plan [][]regOp, rg *rand.Rand, tight bool) {
+	var arrived int32
 	jitter := make([][]int, len(plan))
 	for g := range plan {
 		for range plan[g] {
@@ -185,7 +203,14 @@ func runWindow(w *vt.Writer, plan [][]regOp, rg *rand.Rand) {
 			<-start
 			for k, o := range plan[g] {
 				w.Emit(o.startEv(g + 1))
-				spin(jitter[g][2*k]) // widen the window between the log lines and the call: more overlap is observed
+				if tight { // rendezvous after the START lines: the calls begin within nanoseconds of each other
+					atomic.AddInt32(&arrived, 1)
+					for atomic.LoadInt32(&arrived) < int32(len(plan)) {
+						runtime.Gosched()
+					}
+				} else {
+					spin(jitter[g][2*k]) // widen the window between the log lines and the call: more overlap is observed
+				}
 				res := o.exec()
 				spin(jitter[g][2*k+1])
 				w.Emit(vt.Ev{"ev": "end", "g": g + 1, "res": res})
